@@ -1,4 +1,5 @@
 import GeffProofs.LinkStorePReadFull
+import GeffProofs.VlenNorm
 import GeffProps.C17
 /-! Integration layer, link C17 ← C09 / C01: C09's in-memory geff as the input of C17's model of
 `geff_to_dataframes` (`dfOf`, cell values `Tok`), and the proof that what C01's reader returns for a
